@@ -268,6 +268,57 @@ let storage_handlers = [
 let () = handlers := storage_handlers @ (List.filter (fun (n, _) -> n <> "cfg") !handlers)
 
 
+
+(* ---------- hierarchy of combined filters ---------- *)
+let hier_st : chier ref = ref (ch_new (nat_of_int 2))
+let hier_pushed = ref 0
+let describe_cf k (o : combined option) =
+  match o with
+  | None -> "none"
+  | Some f ->
+    let r = hex_of_bytes (range_bytes (n_of_int k) f.cf_range) in
+    let b = (match f.cf_bloom with
+        | None -> "none"
+        | Some b -> (match bloom_to_raw b with None -> "off" | Some raw -> hex_of_bytes raw)) in
+    "r=" ^ r ^ " b=" ^ b
+let ids_str l = if l = [] then "-" else String.concat "," (List.map (fun c -> string_of_int (int_of_nat c)) l)
+let cmd_hier args =
+  let k = !st_k in
+  let kn = n_of_int k in
+  let present c = (match List.nth_opt !hier_st.h_children c with Some (Some _) -> true | _ -> false) in
+  match args with
+  | ["new"; g] -> hier_st := ch_new (nat_of_int (int_of_string g)); hier_pushed := 0; emit "hier new"
+  | ["push"; cfg; hashers; bits; keys] ->
+    let bloom = if cfg = "none" then None else Some (bloom_new (n_of_string bits) (n_of_string hashers) (bytes_of_hex cfg)) in
+    let ks = if keys = "-" then [] else List.map n_of_hex (String.split_on_char ',' keys) in
+    let f = List.fold_left (fun f key -> cf_add bloom_hash (ckey_bytes kn) f key) (cf_new bloom) ks in
+    let id = List.length !hier_st.h_children in
+    hier_st := ch_step kn !hier_st (HPush f);
+    emit ("hier push " ^ string_of_int id)
+  | ["pop"] ->
+    let any = List.exists (fun x -> x <> None) !hier_st.h_children in
+    hier_st := ch_step kn !hier_st HPop; emit ("hier pop " ^ (if any then "some" else "none"))
+  | ["remove"; i] ->
+    let i = int_of_string i in
+    let was = present i in
+    hier_st := ch_step kn !hier_st (HRemove (nat_of_int i)); emit ("hier remove " ^ (if was then "some" else "none"))
+  | ["offload"; needed; level] ->
+    let n = if needed = "max" then n_of_hex "ffffffffffffffff" else n_of_string needed in
+    let (h, freed) = ch_offload !hier_st n (nat_of_int (int_of_string level)) in
+    hier_st := h; emit ("hier offload " ^ dec_of_n freed)
+  | ["iter"; key] -> emit ("hier iter " ^ ids_str (ch_iter kn !hier_st (n_of_hex key)))
+  | ["iterrev"; key] -> emit ("hier iterrev " ^ ids_str (List.rev (ch_iter kn !hier_st (n_of_hex key))))
+  | ["fast"; key] -> emit ("hier fast " ^ (if ch_iter kn !hier_st (n_of_hex key) = [] then "No" else "Maybe"))
+  | ["check"; key] -> emit ("hier check " ^ (if ch_check kn !hier_st (n_of_hex key) then "Maybe" else "No"))
+  | ["root"] -> emit ("hier root " ^ describe_cf k !hier_st.h_root_filter)
+  | ["mem"] -> emit ("hier mem " ^ dec_of_n (ch_mem !hier_st))
+  | ["len"] ->
+    let ch = !hier_st.h_children in
+    let last = List.fold_left (fun (i, acc) x -> (i + 1, if x <> None then Some i else acc)) (0, None) ch |> snd in
+    emit (Printf.sprintf "hier len %d last %s" (List.length ch) (match last with Some i -> string_of_int i | None -> "none"))
+  | _ -> failwith "bad hier command"
+let () = handlers := ("hier", cmd_hier) :: !handlers
+
 (* ---------- index probe (H2) ---------- *)
 type probe = { mutable pmem : (n * ih list) list; mutable pondisk : bool; mutable pfile : ((n * ih list) list * n) option;
                mutable prange : range; mutable pbloom : bloom option; pbloom_cfg : (string * bloom) option;
